@@ -8,7 +8,7 @@ with the kernel `W[j] = Π_a w_a[j_a]` reads; a sample that falls outside on som
 `constant` (cval = 0) / `ignore` modes contributes nothing in either form. The proof is a Fubini
 exchange of finite sums, by structural induction over the axes.
 -/
-import Mahotas.Proofs.C06Const
+import Mahotas.Proofs.C06Transpose
 namespace Mahotas.C06
 open Mahotas
 
@@ -66,23 +66,6 @@ theorem sum_range_mul (a b : Nat) (g : Nat → Nat → R) :
     simp only [Function.comp]
     rw [Nat.mul_comm a b, Nat.mul_add_div hb, Nat.div_eq_of_lt hi', Nat.mul_add_mod, Nat.mod_eq_of_lt hi']
     simp
-
-theorem inside_setAxis' (s : List Nat) (p : List Int) (axis : Nat) (v : Int) (hp : inside s p = true)
-    (h0 : 0 ≤ v) (h1 : v < ((s.getD axis 1 : Nat) : Int)) : inside s (setAxis p axis v) = true := by
-  induction s generalizing p axis with
-  | nil => cases p <;> simp_all [inside, setAxis]
-  | cons d ds ih =>
-    cases p with
-    | nil => simp [inside] at hp
-    | cons x xs =>
-      simp only [inside, Bool.and_eq_true, decide_eq_true_eq] at hp
-      cases axis with
-      | zero =>
-        simp only [setAxis, inside, Bool.and_eq_true, decide_eq_true_eq]
-        exact ⟨⟨h0, by simpa using h1⟩, hp.2⟩
-      | succ a =>
-        simp only [setAxis, inside, Bool.and_eq_true, decide_eq_true_eq]
-        exact ⟨hp.1, ih xs a hp.2 (by simpa using h1)⟩
 
 /-! ### function-level operators -/
 
@@ -260,7 +243,7 @@ theorem axisOp_congr (m : Mode) (s : List Nat) (a : Nat) (w : Array R) (G G' : L
   | some o =>
     have ho := borderSpec_range m _ _ hN o hb
     simp only [Option.map_some, pick]
-    rw [h _ (inside_setAxis' s p a o hp ho.1 ho.2)]
+    rw [h _ (inside_setAxis s p a o hp ho.1 ho.2)]
 
 theorem passes_congr (m : Mode) (s : List Nat) (ws : Nat → Array R) (l : List Nat)
     (hl : ∀ a ∈ l, a < s.length) (G G' : List Int → R) (h : ∀ q, inside s q = true → G q = G' q) :
@@ -323,6 +306,25 @@ theorem gaussianFilterG_separable (isZero : R → Bool) (hz : ∀ x, isZero x = 
   intro i hi
   beta_reduce
   rw [outerKernel_getD _ _ i (List.mem_range.1 hi)]
+
+/-- **separability, as a list**: for rank ≥ 1 the buffer `gaussian_filter` returns is the tabulated n-D
+    defining sum with the outer-product kernel (for rank 0 there is no pass and the input is returned) -/
+theorem gaussianFilterG_separable_list (isZero : R → Bool) (hz : ∀ x, isZero x = true → x = 0) (m : Mode)
+    (f : Img R) (ws : Nat → Array R) (hn : 0 < f.shape.length) :
+    (gaussianFilterG id isZero m f ws).data.toList =
+      (allPos f.shape).map (convSpec m f (outerShape f.shape.length ws) (outerKernel f.shape.length ws)) := by
+  obtain ⟨hsh, hpt⟩ := gaussianFilterG_separable isZero hz m f ws
+  obtain ⟨k, hk⟩ : ∃ k, f.shape.length = k + 1 := ⟨f.shape.length - 1, by omega⟩
+  have htab : ∃ S g, gaussianFilterG id isZero m f ws = Img.tabulate S g := by
+    unfold gaussianFilterG
+    rw [hk, List.range_succ, List.foldl_append]
+    simp only [List.foldl_cons, List.foldl_nil]
+    have hcur := (gaussianFold_eq_passes isZero hz m ws f.shape (List.range k)
+      (fun a ha => by have := List.mem_range.1 ha; omega) f rfl).1
+    exact ⟨_, _, gaussianPass_eq_tabulate id isZero hz m _ k (ws k) (by rw [hcur]; omega)⟩
+  obtain ⟨S, g, hSg⟩ := htab
+  rw [toList_of_tabulate _ S g 0 hSg f.shape hsh]
+  exact List.map_congr_left fun p hp => hpt p (mem_allPos _ _ hp)
 
 end semiring
 end Mahotas.C06
